@@ -226,13 +226,16 @@ def gen_data(rng, extreme=False, index_kind=None):
     ps = 1 / (1 + np.exp(-(0.3 + 1.0 * L1 - (0.5 if extreme else 1.1) * L2)))
     ds['S'] = (rng.uniform(size=n) < ps).astype(int)
     ds.loc[ds['S'] == 0, ['A', 'Y']] = np.nan
-    return {'full': df, 'miss': dm, 'sel': ds, 'n': n, 'extreme': extreme, 'index_kind': kind}
+    dc = df.copy()
+    # continuous outcome: predictions under the other treatment leave the observed range (small noise, strong effects)
+    dc['Y'] = np.round(2.0 * A + 1.5 * L2 + 0.5 * L1 + rng.normal(scale=0.3, size=n), 4)
+    return {'full': df, 'miss': dm, 'sel': ds, 'cont': dc, 'n': n, 'extreme': extreme, 'index_kind': kind}
 
 
 def pack(data):
     """JSON-able copy of a generated data set (stored in every failing estimator case for replay)"""
     out = {'n': data['n']}
-    for k in ('full', 'miss', 'sel'):
+    for k in ('full', 'miss', 'sel', 'cont'):
         d = data[k]
         out[k] = {'index': [i if isinstance(i, str) else int(i) for i in d.index], 'columns': {c: [None if (isinstance(x, float) and math.isnan(x))
                                                                       else float(x) for x in d[c]] for c in d.columns}}
@@ -240,8 +243,10 @@ def pack(data):
 
 
 def unpack(payload):
-    data = {'n': payload['n']}
-    for k in ('full', 'miss', 'sel'):
+    data = {'n': payload['n'], 'extreme': False, 'index_kind': 'replay'}
+    for k in ('full', 'miss', 'sel', 'cont'):
+        if k not in payload:
+            continue
         cols = {c: [float('nan') if x is None else x for x in v] for c, v in payload[k]['columns'].items()}
         df = pd.DataFrame(cols, index=payload[k]['index'])
         for c in ('A', 'L1', 'S'):
@@ -311,6 +316,52 @@ def play(bound, specify, finish):
     return finish()
 
 
+def logit(p):
+    return np.log(p / (1 - p))
+
+
+def expit(x):
+    return 1 / (1 + np.exp(-x))
+
+
+def recompute_tmle(t):
+    """the TMLE point estimate recomputed by the harness from the probabilities the object exposes (QA1W, QA0W, g1W,
+    g0W, m1W, m0W): documented targeting regression (logit offset = prediction under the observed treatment, clever
+    covariates A/g1, -(1-A)/g0), then mean difference of the updated predictions (unit scale for a continuous outcome)"""
+    import statsmodels.api as sm
+    A = arr(t.df['A'])
+    y = arr(t.df['Y'])
+    g1, g0 = arr(t.g1W), arr(t.g0W)
+    if getattr(t, '_fit_missing_model', False):
+        g1, g0 = g1 * arr(t.m1W), g0 * arr(t.m0W)
+    q1, q0 = arr(t.QA1W), arr(t.QA0W)
+    qa = np.where(A == 1, q1, q0)
+    H = np.column_stack((A / g1, -(1 - A) / g0))
+    obs = ~np.isnan(y)
+    eps = np.asarray(sm.GLM(y[obs], H[obs], offset=logit(qa)[obs], family=sm.families.family.Binomial()).fit().params)
+    qs1 = expit(logit(q1) + eps[0] / g1)
+    qs0 = expit(logit(q0) - eps[1] / g0)
+    return float(np.mean(qs1 - qs0))
+
+
+def recompute_aiptw(a):
+    d = a.df
+    A, y = arr(d['A']), arr(d['Y'])
+    ps1, ps0 = arr(d['_g1_']), arr(d['_g0_'])
+    if getattr(a, '_fit_missing_', False):
+        ps1, ps0 = ps1 * arr(d['_ipmw_a1_']), ps0 * arr(d['_ipmw_a0_'])
+    py1, py0 = arr(d['_pY1_']), arr(d['_pY0_'])
+    y1 = np.where(A == 1, (y - py1 * (1 - ps1)) / ps1, py1)
+    y0 = np.where(A == 0, (y - py0 * (1 - ps0)) / ps0, py0)
+    return float(np.nanmean(y1 - y0))
+
+
+def hajek_rd(y, a, w):
+    ok = ~np.isnan(y) & ~np.isnan(w) & ~np.isnan(a)
+    y, a, w = y[ok], a[ok], w[ok]
+    return float(np.sum(w * y * (a == 1)) / np.sum(w * (a == 1)) - np.sum(w * y * (a == 0)) / np.sum(w * (a == 0)))
+
+
 def with_a(df, a):
     d = df.copy()
     d['A'] = a
@@ -336,7 +387,8 @@ def run_iptw(data, cfg, bound):
             p['numer'] = arr(ipt.df['__numer__'])
             ref['numer'] = arr(ref_glm('A ~ ' + cfg.get('num', '1'), ipt.df).predict(ipt.df))
         return {'p': p, 'w': {'iptw': arr(ipt.iptw)}, 'est': {'rd': float(ipt.risk_difference['RD'].iloc[1])},
-                'aux': {'a': arr(ipt.df['A']), 'numer_col': arr(ipt.df['__numer__']), 'ref': ref}}
+                'aux': {'a': arr(ipt.df['A']), 'numer_col': arr(ipt.df['__numer__']), 'ref': ref,
+                        'recomputed': {'rd': (hajek_rd(arr(ipt.df['Y']), arr(ipt.df['A']), arr(ipt.iptw)), 1e-6)}}}
     return play(bound, specify, finish)
 
 
@@ -354,7 +406,9 @@ def run_iptw_miss(data, cfg, bound):
         d = arr(ref_glm('__missing_indicator__ ~ ' + FORMULA_M, ipt.df).predict(ipt.df))
         n = arr(ref_glm('__missing_indicator__ ~ A', ipt.df).predict(ipt.df)) if cfg['stab'] else np.ones(len(d))
         return {'p': {}, 'w': {'ipmw': arr(ipt.ipmw)}, 'est': {'rd': float(ipt.risk_difference['RD'].iloc[1])},
-                'aux': {'d_ref': d, 'n_ref': n, 'obs': arr(ipt.df['__missing_indicator__']) == 1, 'ref': {}}}
+                'aux': {'d_ref': d, 'n_ref': n, 'obs': arr(ipt.df['__missing_indicator__']) == 1, 'ref': {},
+                        'recomputed': {'rd': (hajek_rd(arr(ipt.df['Y']), arr(ipt.df['A']),
+                                                       arr(ipt.iptw) * arr(ipt.ipmw)), 1e-6)}}}
     return play(bound, specify, finish)
 
 
@@ -407,14 +461,24 @@ def run_aiptw(data, cfg, bound):
             obs = arr(a.df['__missing_indicator__']) == 1
             ref = {'m1': np.where(obs, m1, np.nan), 'm0': np.where(obs, m0, np.nan)}
         return {'p': p, 'w': {}, 'est': {'rd': float(a.risk_difference), 'rr': float(a.risk_ratio)},
-                'aux': {'ref': ref}}
+                'aux': {'ref': ref, 'recomputed': {'rd': (recompute_aiptw(a), 1e-10)}}}
     return play(bound, specify, finish)
+
+
+CB = 0.0005          # documented default of continuous_bound
+
+
+def gauss_ref(df, newdf):
+    import statsmodels.api as sm
+    import statsmodels.formula.api as smf
+    return arr(smf.glm('Y ~ ' + FORMULA_Y, df, family=sm.families.family.Gaussian()).fit().predict(newdf))
 
 
 def run_tmle(data, cfg, bound):
     from zepid.causal.doublyrobust import TMLE
-    which = cfg['which']
-    t = TMLE(data['miss'] if which == 'missing' else data['full'], 'A', 'Y')
+    which, cont = cfg['which'], cfg.get('cont', False)
+    src = data['cont'] if cont else (data['miss'] if which == 'missing' else data['full'])
+    t = TMLE(src, 'A', 'Y')
     if which != 'exposure':
         t.exposure_model(FORMULA_A, print_results=False)
 
@@ -438,19 +502,34 @@ def run_tmle(data, cfg, bound):
             p = {'m1': arr(t.m1W), 'm0': arr(t.m0W)}
             m1, m0 = miss_ref(t.df)
             ref = {'m1': m1, 'm0': m0}
+        elif cont:
+            # the documented continuous_bound applies when no bound is given: fitted values clipped to [cb, 1-cb]
+            p = {'q1': arr(t.QA1W), 'q0': arr(t.QA0W)}
+            ref = {'q1': np.clip(gauss_ref(t.df, with_a(t.df, 1)), CB, 1 - CB),
+                   'q0': np.clip(gauss_ref(t.df, with_a(t.df, 0)), CB, 1 - CB)}
         else:
             p = {'q1': arr(t.QA1W), 'q0': arr(t.QA0W)}
             fit = ref_glm('Y ~ ' + FORMULA_Y, t.df.dropna())
             ref = {'q1': arr(fit.predict(with_a(t.df, 1))), 'q0': arr(fit.predict(with_a(t.df, 0)))}
-        return {'p': p, 'w': {}, 'est': {'rd': float(t.risk_difference), 'rr': float(t.risk_ratio),
-                                         'or': float(t.odds_ratio)}, 'aux': {'ref': ref}}
+        # derived public state: the prediction under the observed treatment is assembled from the (truncated) pair
+        A = arr(t.df['A'])
+        derived = {'QAW = QA1W where A=1, QA0W where A=0': (arr(t.QAW), np.where(A == 1, arr(t.QA1W), arr(t.QA0W)))}
+        if cont:
+            rng_y = float(src['Y'].max() - src['Y'].min())
+            est = {'ate': float(t.average_treatment_effect)}
+            rec = {'ate': (recompute_tmle(t) * rng_y, 1e-6)}
+        else:
+            est = {'rd': float(t.risk_difference), 'rr': float(t.risk_ratio), 'or': float(t.odds_ratio)}
+            rec = {'rd': (recompute_tmle(t), 1e-6)}
+        return {'p': p, 'w': {}, 'est': est, 'aux': {'ref': ref, 'recomputed': rec, 'derived': derived}}
     return play(bound, specify, finish)
 
 
 def run_stmle(data, cfg, bound):
+    import statsmodels.api as sm
     from zepid.causal.doublyrobust import StochasticTMLE
-    which = cfg['which']
-    s = StochasticTMLE(data['full'], 'A', 'Y')
+    which, cont = cfg['which'], cfg.get('cont', False)
+    s = StochasticTMLE(data['cont'] if cont else data['full'], 'A', 'Y')
     if which == 'outcome':
         s.exposure_model(FORMULA_A)
 
@@ -465,14 +544,24 @@ def run_stmle(data, cfg, bound):
             s.outcome_model(FORMULA_Y)
         s.fit(p=0.4, samples=8, seed=20260101)
         pred = arr(ref_glm('A ~ ' + FORMULA_A, s.df).predict(s.df))
+        A = arr(s.df['A'])
         if which == 'exposure':
             p = {'den': arr(s._denominator_)}
-            ref = {'den': np.where(arr(s.df['A']) == 1, pred, 1 - pred)}
+            ref = {'den': np.where(A == 1, pred, 1 - pred)}
+        elif cont:
+            p = {'qinit': arr(s._Qinit_)}
+            ref = {'qinit': np.clip(gauss_ref(s.df, s.df), CB, 1 - CB)}
         else:
             p = {'qinit': arr(s._Qinit_)}
             ref = {'qinit': arr(ref_glm('Y ~ ' + FORMULA_Y, s.df).predict(s.df))}
-        return {'p': p, 'w': {}, 'est': {'psi': float(s.marginal_outcome)},
-                'aux': {'a': arr(s.df['A']), 'pred_ref': pred, 'ntrunc': s._specified_bound_, 'ref': ref}}
+        # the fluctuation parameter recomputed from the exposed truncated quantities (documented weighted
+        # intercept-only logistic regression with offset logit(Q) and weights Pr*(A|W)/g(A|W))
+        haw = np.where(A == 1, 0.4, 0.6) / arr(s._denominator_)
+        eps = float(np.asarray(sm.GLM(arr(s.df['Y']), np.ones(len(A)), offset=logit(arr(s._Qinit_)), freq_weights=haw,
+                                      family=sm.families.family.Binomial()).fit().params)[0])
+        return {'p': p, 'w': {}, 'est': {'psi': float(s.marginal_outcome), 'epsilon': float(s.epsilon)},
+                'aux': {'a': A, 'pred_ref': pred, 'ntrunc': s._specified_bound_, 'ref': ref,
+                        'recomputed': {'epsilon': (eps, 1e-6)}}}
     return play(bound, specify, finish)
 
 
@@ -491,7 +580,8 @@ def run_ipsw(data, cfg, bound):
             p['numer'] = arr(s.sample['__numer__'])
             ref['numer'] = arr(ref_glm('S ~ 1', s.df).predict(s.sample))
         return {'p': p, 'w': {'ipsw': arr(s.ipsw)}, 'est': {'rd': float(s.risk_difference), 'rr': float(s.risk_ratio)},
-                'aux': {'numer_col': arr(s.sample['__numer__']), 'ref': ref}}
+                'aux': {'numer_col': arr(s.sample['__numer__']), 'ref': ref,
+                        'recomputed': {'rd': (hajek_rd(arr(s.sample['Y']), arr(s.sample['A']), arr(s.ipsw)), 1e-10)}}}
     return play(bound, specify, finish)
 
 
@@ -548,8 +638,9 @@ SITES = [
     ('IPTW.missing_model', run_iptw_miss, [{'stab': True}, {'stab': False}]),
     ('GEstimationSNM.missing_model', run_snm_miss, [{'stab': True}, {'stab': False}]),
     ('AIPTW', run_aiptw, [{'which': 'exposure'}, {'which': 'missing'}]),
-    ('TMLE', run_tmle, [{'which': 'exposure'}, {'which': 'missing'}, {'which': 'outcome'}]),
-    ('StochasticTMLE', run_stmle, [{'which': 'exposure'}, {'which': 'outcome'}]),
+    ('TMLE', run_tmle, [{'which': 'exposure'}, {'which': 'missing'}, {'which': 'outcome'},
+                        {'which': 'outcome', 'cont': True}]),
+    ('StochasticTMLE', run_stmle, [{'which': 'exposure'}, {'which': 'outcome'}, {'which': 'outcome', 'cont': True}]),
     ('IPSW.sampling_model', run_ipsw, [{'stab': s, 'gen': g} for s in (True, False) for g in (True, False)]),
     ('treatment_model(generalize)', run_ipsw_trt, [{'cls': c, 'stab': s} for c in ('IPSW', 'AIPSW')
                                                    for s in (True, False)]),
@@ -688,6 +779,7 @@ def estimator_case(chk, drv, site, runner, cfg, data, U, kind, bound, seed_note)
         chk.case(None, None)
         chk.d(False, '%s runs with bound=%s (raised %s: %s)' % (site, kind, type(ex).__name__, str(ex)[:120]), case)
         return None
+    consistency_case(chk, site, cfg, B, seed_note, kind, bound)
     nontriv = (nclipped > 0) == reach
     chk.case(None, (site, repr(sorted(cfg.items())), kind, seed_note['id']) if nontriv else None,
              sample=dict(case, data=seed_note['id'], estimates=B['est'], unbounded=U['est'])
@@ -806,6 +898,22 @@ def estimator_case(chk, drv, site, runner, cfg, data, U, kind, bound, seed_note)
     return B
 
 
+def consistency_case(chk, site, cfg, obs, note, kind, bound):
+    """D on ONE run (any bound): the reported estimate is the documented estimator evaluated at the probabilities the
+    object exposes (so a truncated probability that is shown is also the one that is used), and derived public
+    state is assembled from the truncated values.  Tolerances: 1e-6 where both sides end an IRLS, 1e-10 closed forms."""
+    case = {'site': site, 'cfg': cfg, 'data': note, 'bound_kind': kind,
+            'bound': list(bound) if isinstance(bound, tuple) else bound}
+    for k, (val, tol) in obs['aux'].get('recomputed', {}).items():
+        chk.case(None, None)
+        chk.d(close(obs['est'][k], val, rtol=tol, atol=tol),
+              '%s: reported %s = documented formula at the (truncated) probabilities the object exposes '
+              '(reported %.12g, recomputed %.12g)' % (site, k, obs['est'][k], val), case)
+    for what, (got, want) in obs['aux'].get('derived', {}).items():
+        chk.case(None, None)
+        chk.d(same(got, want), '%s: %s' % (site, what), case)
+
+
 def nobound_case(chk, site, cfg, U, note):
     """D: no bound requested => the fitted probabilities are used as they are (reference GLM fit made by the harness
     with the documented formula on the estimator's own data frame; 1e-9 relative: the same IRLS on the same data)"""
@@ -883,7 +991,12 @@ def estimators(chk, drv, rng, tier):
                     href = np.allclose(U['w']['ipmw'][obs], U['aux']['n_ref'][obs] / U['aux']['d_ref'][obs], rtol=1e-10)
                     chk.k(bool(href), 'nuisance layer: %s weights = reference GLM fit' % site, {'site': site, 'cfg': cfg})
                 nobound_case(chk, site, cfg, U, note)
+                consistency_case(chk, site, cfg, U, note, 'none', False)
                 bounds = choose_bounds(clipped_probs(site, cfg, U))
+                if cfg.get('cont'):
+                    # the unbounded run already truncates at the documented continuous_bound, and an explicit bound
+                    # replaces it: "unreached => identical" is only meaningful against the raw fitted values
+                    bounds = {k: v for k, v in bounds.items() if k.startswith('reached')}
                 fresh = {}
                 for kind, bound in bounds.items():
                     if kind == 'reached_tuple' and tier == 'quick' and site != 'TMLE':
@@ -990,6 +1103,7 @@ def replay(rec):
                                  'history = fresh object given the last specification')
                 elif case['bound_kind'] == 'none':
                     nobound_case(chk, site, case['cfg'], U, case['data'])
+                    consistency_case(chk, site, case['cfg'], U, case['data'], 'none', False)
                 else:
                     estimator_case(chk, None, site, runner, case['cfg'], data, U, case['bound_kind'], bound, case['data'])
             print(site, case['cfg'], case['bound_kind'], 'bound =', case.get('history', bound), '| n =', data['n'])
